@@ -149,6 +149,9 @@ def run():
             right = rhs_real[k]
         if m == right:
             raise Inconclusive("witness %r for %r does not reproduce (both sides %s)" % (w, r["text"], m))
+        if i in ses.patch_undecided:
+            rep.undecided_add({"program": r["text"], "clause": "main", "why": "patched obligation (known-finding attribution) undecided"})
+            continue
         roles = {"matches-but-prefix-plus-postfix-does-not" if m else "prefix-plus-postfix-matches-but-glob-does-not"}
         if i in explained:
             roles.add("rooted-leading-tree")
